@@ -2,7 +2,7 @@
    with the one-shot ULEB128 value; the BlockDecoder's chunk-level loop is the byte-at-a-time
    block automaton, which is split independent. *)
 From Coq Require Import List Arith NArith ZArith Bool Lia ZifyN ZifyNat ZifyBool.
-From AV Require Import Base.Bits Base.Bytes Model.C14_Avro.
+From AV Require Import Base.ListX Base.Bits Base.Bytes Model.C14_Avro.
 Import ListNotations.
 Local Open Scope N_scope.
 Ltac Zify.zify_post_hook ::= Z.div_mod_to_equations.
@@ -410,4 +410,141 @@ Proof.
     { apply block_decode_is_brun1; [exact Hw2|]. unfold block_fuel. pose proof (bslack_bounds d1). lia. }
     split; [now rewrite Hb1|]. intros Hok. rewrite <- Hb2; [reflexivity|congruence].
   - destruct r1, r2; split; try reflexivity; discriminate.
+Qed.
+
+(* ------------------------------------------------------------------ vlq::read_varint = ULEB128 *)
+(* the spec again, returning the number of bytes read instead of the rest *)
+Fixpoint ulebc (n : nat) (bs : list N) (shift acc : N) (k : nat) : option (N * nat) :=
+  match n, bs with
+  | O, _ => None
+  | _, [] => None
+  | S n', b :: r =>
+      if (shift =? 63) && (2 <=? b) then None
+      else let acc' := acc + (b mod 128) * 2 ^ shift in
+           if b <? 128 then Some (acc', S k) else ulebc n' r (shift + 7) acc' (S k)
+  end.
+
+Lemma uleb_suffix : forall n bs s a v rest, uleb n bs s a = Some (v, rest) ->
+  exists p, bs = p ++ rest /\ p <> [].
+Proof.
+  induction n as [|n IH]; intros bs s a v rest H; [discriminate|]. destruct bs as [|b r]; [discriminate|].
+  cbn [uleb] in H. destruct ((s =? 63) && (2 <=? b)); [discriminate|].
+  destruct (b <? 128).
+  - inversion H; subst. exists [b]. split; [reflexivity|discriminate].
+  - apply IH in H. destruct H as [p [-> _]]. exists (b :: p). split; [reflexivity|discriminate].
+Qed.
+
+Lemma uleb_ulebc : forall n bs s a k,
+  ulebc n bs s a k =
+  match uleb n bs s a with Some (v, rest) => Some (v, (k + (length bs - length rest))%nat) | None => None end.
+Proof.
+  induction n as [|n IH]; intros bs s a k; [reflexivity|]. destruct bs as [|b r]; [reflexivity|].
+  cbn [uleb ulebc]. destruct ((s =? 63) && (2 <=? b)); [reflexivity|].
+  destruct (b <? 128).
+  - f_equal. f_equal. cbn [length]. lia.
+  - rewrite IH. destruct (uleb n r (s + 7) (a + b mod 128 * 2 ^ s)) as [[v rest]|] eqn:E; [|reflexivity].
+    apply uleb_suffix in E. destruct E as [p [-> _]]. f_equal. f_equal. cbn [length]. rewrite app_length. lia.
+Qed.
+
+Lemma ulebc_firstn : forall n bs s a k, ulebc n (firstn n bs) s a k = ulebc n bs s a k.
+Proof.
+  induction n as [|n IH]; intros bs s a k; [reflexivity|]. destruct bs as [|b r]; [reflexivity|].
+  cbn [firstn ulebc]. destruct ((s =? 63) && (2 <=? b)); [reflexivity|]. destruct (b <? 128); [reflexivity|apply IH].
+Qed.
+
+Lemma shiftl_mul x s : N.shiftl x s = x * 2 ^ s.
+Proof. apply N.shiftl_mul_pow2. Qed.
+
+Lemma rv_slow_spec : forall buf n count value, wf_bytes buf -> (n + count = 10)%nat ->
+  value < 2 ^ (7 * N.of_nat count) ->
+  rv_slow_loop count n buf value = ulebc n buf (7 * N.of_nat count) value count.
+Proof.
+  induction buf as [|b r IH]; intros n count value Hwf Hn Hv; [destruct n; reflexivity|].
+  destruct n as [|n']; [reflexivity|]. cbn [rv_slow_loop ulebc].
+  inversion Hwf as [|? ? Hb Hr]; subst. change (2 ^ 8) with 256 in Hb.
+  replace (N.of_nat count * 7) with (7 * N.of_nat count) by lia.
+  assert (Hm : b mod 128 < 128) by (apply N.mod_lt; lia).
+  destruct (Nat.eq_dec count 9) as [->|Hc].
+  - (* the 10th group *)
+    change (7 * N.of_nat 9) with 63 in *. cbn [N.eqb Pos.eqb andb Nat.eqb negb orb].
+    assert (n' = 0)%nat by lia. subst n'.
+    destruct (N.leb_spec 2 b) as [H2|H2].
+    + destruct (N.leb_spec b 127); [|reflexivity]. destruct (N.ltb_spec b 2); [lia|reflexivity].
+    + destruct (N.leb_spec b 127); [|lia]. destruct (N.ltb_spec b 2); [|lia]. destruct (N.ltb_spec b 128); [|lia].
+      f_equal. f_equal. rewrite land_127. rewrite (N.mod_small b 128) by lia. rewrite shiftl_mul.
+      rewrite N.mod_small by (unfold U64; change (2 ^ 64) with (2 * 2 ^ 63); nia).
+      rewrite <- shiftl_mul. rewrite lor_shift_add by exact Hv. rewrite ?shiftl_mul. reflexivity.
+  - assert (Hc8 : (count <= 8)%nat) by lia.
+    destruct (N.eqb_spec (7 * N.of_nat count) 63) as [E|_]; [lia|]. cbn [andb].
+    assert (Hp : 2 ^ (7 * N.of_nat count + 7) <= 2 ^ 63) by (apply N.pow_le_mono_r; lia).
+    rewrite land_127, shiftl_mul.
+    rewrite N.mod_small.
+    2:{ unfold U64. rewrite N.pow_add_r in Hp. change (2 ^ 7) with 128 in Hp. change (2 ^ 64) with (2 * 2 ^ 63). nia. }
+    rewrite <- shiftl_mul, lor_shift_add by exact Hv. rewrite ?shiftl_mul.
+    assert (Eq : (b <=? 127) = (b <? 128)) by (destruct (N.leb_spec b 127), (N.ltb_spec b 128); lia || reflexivity).
+    rewrite Eq. destruct (b <? 128).
+    + destruct (Nat.eqb_spec count 9); [contradiction|]. cbn [negb orb]. reflexivity.
+    + replace (7 * N.of_nat count + 7) with (7 * N.of_nat (S count)) by lia.
+      apply IH; [exact Hr|lia|].
+      replace (7 * N.of_nat (S count)) with (7 * N.of_nat count + 7) by lia. rewrite N.pow_add_r. change (2 ^ 7) with 128. nia.
+Qed.
+
+Lemma rv_array_spec : forall n buf idx acc, wf_bytes buf -> (n + idx = 9)%nat ->
+  acc < 2 ^ (7 * N.of_nat idx) -> length buf = S n ->
+  (match rv_array_loop idx n buf acc with
+   | inl r => r
+   | inr acc' => let b := nth n buf 0 in
+                 if b <? 2 then Some (acc' + (N.shiftl b 63) mod U64, 10%nat) else None
+   end) = ulebc (S n) buf (7 * N.of_nat idx) acc idx.
+Proof.
+  induction n as [|n IH]; intros buf idx acc Hwf Hn Hacc Hlen.
+  - assert (idx = 9)%nat by lia. subst idx. destruct buf as [|b [|b2 r]]; try discriminate.
+    cbn [rv_array_loop nth ulebc]. change (7 * N.of_nat 9) with 63. cbn [N.eqb Pos.eqb andb].
+    inversion Hwf as [|? ? Hb _]; subst. change (2 ^ 8) with 256 in Hb.
+    destruct (N.leb_spec 2 b) as [H2|H2]; destruct (N.ltb_spec b 2); try lia; [reflexivity|].
+    destruct (N.ltb_spec b 128); [|lia]. rewrite (N.mod_small b 128) by lia. rewrite shiftl_mul.
+    rewrite N.mod_small by (unfold U64; change (2 ^ 64) with (2 * 2 ^ 63); nia). reflexivity.
+  - destruct buf as [|b r]; [discriminate|]. cbn [length] in Hlen.
+    inversion Hwf as [|? ? Hb Hr]; subst. change (2 ^ 8) with 256 in Hb.
+    cbn [rv_array_loop ulebc]. destruct (N.eqb_spec (7 * N.of_nat idx) 63) as [E|_]; [lia|]. cbn [andb].
+    rewrite shiftl_mul. destruct (N.ltb_spec b 128) as [Hlt|Hge].
+    + rewrite N.mod_small by exact Hlt. reflexivity.
+    + cbn [nth]. rewrite shiftl_mul.
+      assert (Em : b mod 128 = b - 128) by lia.
+      replace (acc + b * 2 ^ (7 * N.of_nat idx) - 128 * 2 ^ (7 * N.of_nat idx)) with (acc + b mod 128 * 2 ^ (7 * N.of_nat idx)) by (rewrite Em; nia).
+      replace (7 * N.of_nat idx + 7) with (7 * N.of_nat (S idx)) by lia.
+      apply IH; [exact Hr|lia| |lia].
+      replace (7 * N.of_nat (S idx)) with (7 * N.of_nat idx + 7) by lia. rewrite N.pow_add_r. change (2 ^ 7) with 128.
+      assert (b mod 128 < 128) by (apply N.mod_lt; lia). nia.
+Qed.
+
+(* the 1-byte fast path, the 10-byte array path and the slow path all compute the ULEB128 value *)
+Theorem read_varint_is_uleb : forall buf, wf_bytes buf ->
+  read_varint buf =
+  match uleb10 buf with Some (v, rest) => Some (v, (length buf - length rest)%nat) | None => None end.
+Proof.
+  intros buf Hwf. unfold uleb10.
+  transitivity (ulebc 10 buf 0 0 0); [|rewrite uleb_ulebc; destruct (uleb 10 buf 0 0) as [[v rest]|]; reflexivity].
+  unfold read_varint.
+  destruct buf as [|first r]; [reflexivity|].
+  inversion Hwf as [|? ? Hb Hr]; subst. change (2 ^ 8) with 256 in Hb.
+  destruct (N.ltb_spec first 128) as [Hlt|Hge].
+  - cbn [ulebc N.eqb andb]. destruct (N.ltb_spec first 128); [|lia]. rewrite N.mod_small by lia. f_equal. f_equal. cbn. lia.
+  - destruct (Nat.leb_spec 10 (length (first :: r))) as [H10|H10].
+    + unfold read_varint_array. rewrite <- (ulebc_firstn 10 (first :: r)).
+      apply (rv_array_spec 9 (firstn 10 (first :: r)) 0 0); [apply Forall_firstn'; exact Hwf|lia|reflexivity|].
+      rewrite firstn_length. lia.
+    + unfold read_varint_slow. apply (rv_slow_spec (first :: r) 10 0 0 Hwf); [lia|reflexivity].
+Qed.
+
+(* headline: the streaming decoder fed in any number of pieces = AvroCursor::get_long on the whole *)
+Theorem vlq_stream_equals_get_long : forall buf, wf_bytes buf ->
+  vres_of (vlq_long vlq0 buf) = get_long buf.
+Proof.
+  intros buf Hwf. rewrite vlq_stream_equals_oneshot by exact Hwf. unfold get_long.
+  rewrite read_varint_is_uleb by exact Hwf.
+  destruct (uleb10 buf) as [[v rest]|] eqn:E; [|reflexivity].
+  unfold uleb10 in E. apply uleb_suffix in E. destruct E as [p [-> _]].
+  rewrite app_length. replace (length p + length rest - length rest)%nat with (length p) by lia.
+  rewrite skipn_app, skipn_all, Nat.sub_diag. reflexivity.
 Qed.
